@@ -78,6 +78,21 @@ func cmdRand(args []string) {
 				os.Exit(3)
 			}
 		}
+		if p.HelpCases {
+			for n := range d.Cfg.Nodes {
+				if d.Cfg.Nodes[n].IsHelp {
+					continue
+				}
+				id++
+				c := gh.Case{Ev: "case", Def: defID, ID: *idBase + id, Argv: []gh.Tok{}, Comp: "help", HN: n + 1}
+				c.Res = gh.RunCase(&d, &c)
+				line, _ := json.Marshal(&c)
+				block = append(block, line)
+				cases++
+				nontrivial++
+				stats["help-case"]++
+			}
+		}
 		writeBlock(w, &d, block)
 	}
 	w.Flush()
